@@ -67,7 +67,10 @@ impl Resolver<'_> {
             return cols;
         };
 
-        for (ident, decl) in this.as_decls().into_iter().sorted_by_key(|x| x.1.order) {
+        // `order` can tie (columns of a tuple all get 0), the ident cannot
+        for (ident, decl) in (this.as_decls().into_iter())
+            .sorted_by_key(|x| (x.1.order, x.0.clone()))
+        {
             if let DeclKind::Column(_) = decl.kind {
                 cols.push(ident);
             }
